@@ -22,10 +22,10 @@ The model is a pure function, so the two ways a run can depend on something else
 
 Fixed since: F_getGoFile (f3054bd: `getGoFile` is a package-scope look-up now; `C07_getGoFile_fixed`), F_aliasDup (62d8144:
 a duplicate alias is a Fatal in every order; `C07_aliasDup_fixed`), F_msgOrder (376a366: the success message is sorted;
-`C07_msgOrder_fixed`).  Both are now part of `C07_order_indep`, which needs no condition on the alias map any more.
+`C07_msgOrder_fixed`), F_pkgDirCwd (eb01b4a: the package of a REST parameter struct is resolved from the package directory, not
+from the working directory; `C07_pkgDirCwd_fixed`, `C07_pkgDir_cwd_indep`).  Both are now part of `C07_order_indep`, which needs no condition on the alias map any more.
 Findings (the unchanged code violates the property; witness theorems below):
   F_structTwice    – rest: a parameter struct declared in two files of the directory (build tags, external test package)
-  F_pkgDirCwd      – rest: the package of a parameter struct is resolved from the WORKING DIRECTORY, not from the package directory
   F_embedderFirst  – `-getset`: a type processed before the shoot type it embeds: the second run differs from the first
   F_staleAllInOne  – `-file=` / `-type=*` with stale output: the stale all-in-one file is not shadowed by the overlay
 -/
@@ -112,8 +112,8 @@ theorem C07_writes_any_dir (ord d₁ d₂ : Entries String String) (h : (keys or
 def readTable : List ((String × String × String) × String) := [
   (("internal/mapper", "ParseFlags", "os.Stat"), "existence of the -path directory (command line check, Fatal if absent)"),
   (("internal/restclient", "extractStructFields", "parser.ParseDir"), "finding F_structTwice"),
-  (("internal/restclient", "getPkgDir", "build.Import"), "directory of another package's parameter struct (envSites)"),
-  (("internal/shoot", "Clean", "filepath.Glob"), "after the writes: which other generated files to delete (-type=*)"),
+  (("internal/restclient", "getPkgDir", "build.Context.Import"), "directory of another package's parameter struct, resolved from the package directory (C07_pkgDir_cwd_indep)"),
+  (("internal/shoot", "Clean", "os.ReadDir"), "after the writes: the entry NAMES of the package directory, to pick the other generated files to delete (-type=*)"),
   (("internal/shoot", "ParseCommonFlags", "os.Stat"), "existence / kind of the [dir] and -file arguments (command line check)"),
   (("internal/shoot", "firstLine", "os.Open"), "after the writes: header line of another generated file (Clean)"),
   (("internal/shoot", "loadPkgs", "packages.Load"), "THE input: the package = hand-written ∪ generated files present ∪ overlay (GenState.effective)")]
@@ -170,10 +170,12 @@ theorem C07_sites_conditional :
        ("internal/shoot", "(*GeneratorBase).LoadPackage", "g.overlay")] := by decide
 
 /-- no goroutine, select, clock, random number, process identity or environment variable is used; the only
-    location-dependent calls are `filepath.Abs` (compared with `pkg.Dir`, both absolute: the comparison is
-    location-independent) and `build.Import` for a REST parameter struct from another package -/
+    location-dependent calls are `filepath.Abs` (loadPkgs: compared with `pkg.Dir`, both absolute, the comparison is
+    location-independent; getPkgDir: makes the [dir] argument absolute) and the go/build look-up of a REST parameter struct's
+    package, which since eb01b4a runs in that absolute package directory (`C07_pkgDir_cwd_indep`) -/
 theorem C07_env_sites_covered :
-    Facts.envSites = [("internal/restclient", "getPkgDir", "build.Import"), ("internal/shoot", "loadPkgs", "filepath.Abs")] := by
+    Facts.envSites = [("internal/restclient", "getPkgDir", "build.Context.Import"), ("internal/restclient", "getPkgDir", "filepath.Abs"),
+      ("internal/shoot", "loadPkgs", "filepath.Abs")] := by
   decide
 
 /-! finding witnesses: two iteration orders, two results -/
@@ -215,22 +217,23 @@ theorem C07_F_structTwice_witness :
 
 /-! the working directory -/
 
-/-- `shoot rest`, struct parameter from another package: started anywhere inside the module of the package that is being generated
-    (the package directory, the module root, a sibling package: the same module context) the struct's package directory is the
-    one the type checker used - the region in which the working-directory legs of the correspondence assert equal bytes -/
-theorem C07_pkgDir_same_context (ctx : ModCtx) (importPath : String) :
-    getPkgDir ctx importPath = pkgDirSpec ctx importPath ∧ F_pkgDirCwd ctx ctx importPath = false := by
-  simp [getPkgDir, pkgDirSpec, F_pkgDirCwd]
+/-- `shoot rest`, struct parameter from another package: wherever the command is started (any module context of the working
+    directory: the package's own module, another module that provides the same import path, no module at all), the struct's
+    package directory is the one the import path has for the package that is being generated - the code at HEAD -/
+theorem C07_pkgDir_cwd_indep (cwd₁ cwd₂ pkgCtx : ModCtx) (importPath : String) :
+    getPkgDir cwd₁ pkgCtx importPath = getPkgDir cwd₂ pkgCtx importPath ∧
+    getPkgDir cwd₁ pkgCtx importPath = pkgDirSpec pkgCtx importPath := ⟨rfl, rfl⟩
 
-/-- F_pkgDirCwd: `shoot rest -type=C <dir>` started in a directory of ANOTHER module that also provides the import path of the
-    parameter struct's package (a second checkout, a fork, a vendored copy) reads THAT module's struct: the query parameters of
-    the generated client come from a struct the package being generated never sees; started outside any module the run fails -/
-theorem C07_F_pkgDirCwd_witness :
+/-- fixed by eb01b4a (was F_pkgDirCwd): `getPkgDir` resolved the path with an empty source directory, i.e. from the process's
+    working directory - started in a directory of ANOTHER module that also provides the import path (a second checkout, a fork, a
+    vendored copy) the run read THAT module's struct, started outside any module it failed; now both give the package's own -/
+theorem C07_pkgDirCwd_fixed :
     let pkgCtx : ModCtx := [("verifcases/c/dest", "/work/mod/c/dest")]
     let otherCtx : ModCtx := [("verifcases/c/dest", "/work/mod/c/zz_other/c/dest")]
-    F_pkgDirCwd otherCtx pkgCtx "verifcases/c/dest" = true ∧ F_pkgDirCwd [] pkgCtx "verifcases/c/dest" = true ∧
-    getPkgDir otherCtx "verifcases/c/dest" ≠ pkgDirSpec pkgCtx "verifcases/c/dest" ∧
-    getPkgDir [] "verifcases/c/dest" = none := by decide
+    getPkgDirBefore otherCtx pkgCtx "verifcases/c/dest" = some "/work/mod/c/zz_other/c/dest" ∧
+    getPkgDirBefore [] pkgCtx "verifcases/c/dest" = none ∧
+    getPkgDir otherCtx pkgCtx "verifcases/c/dest" = some "/work/mod/c/dest" ∧
+    getPkgDir [] pkgCtx "verifcases/c/dest" = pkgDirSpec pkgCtx "verifcases/c/dest" := by decide
 
 /-! ## generated files are not input -/
 
